@@ -510,6 +510,7 @@ theorem exec_th_other (s : Sys) (t t2 : Nat) (op : Op) (hne : t2 ≠ t) : (exec 
   | ctxOf v => simp only [exec]; split <;> rfl
   | ctxLocal => simp only [exec]; split <;> rfl
   | toRecords x tr sp => simp only [exec]; split <;> rfl
+  | dropLocalSpans x => rfl
   | cycle => simp only [exec]; split <;> first | rfl | exact Sys.cycle_th s t2
   | flush => simp only [exec]; split <;> first | rfl | exact Sys.cycle_th s t2
   | cycBegin => exact Sys.cycBegin_th s t2
